@@ -32,8 +32,15 @@ LEVEL_NOTE = ("Partial: proof about a hand-written model, tied to the code by di
               "(memory metadata provider holding the status of the history so far, stub rpc.Provider: nodes healthy, replication "
               "RPCs block) at arbitrary points of a history, OpRestart in the model = ApplyClusterChanges on the STORED status; "
               "that kind compares ids, ranges, Deleting marks, rf, ShardIdGenerator and ServerIdx (the real selector and the "
-              "shard controllers run, so ensembles / status / term / leader are left out). ConfigChanged itself is not driven "
-              "(it needs live node and shard controllers); the harness composes the same calls it makes: ApplyClusterChanges, "
+              "shard controllers run, so ensembles / status / term / leader are left out). ConfigChanged of a live coordinator (stub rpc: nodes healthy, elections succeed, DeleteShard of "
+              "the scenario's Deleting shards held back) is driven with deletions of Deleting shards completing exactly between its "
+              "LoadWithVersion and its Swap, 1..3 times in a row (the harness is called from the one log call of that window: every "
+              "such config change carries a namespace with more replicas than servers), then the namespace is re-added, others "
+              "added, the coordinator restarted; model: OpCasLost (a lost attempt stores nothing) / OpDeleted / OpApply, i.e. the "
+              "attempt whose Swap succeeds is an atomic apply on the latest status - that linearization is checked by "
+              "correspondence, the compare-and-set loop itself is not modelled below that granularity; concurrent "
+              "UpdateShardMetadata writes of running elections and balancer swaps also hit the window but only change masked fields. "
+              "The status legs otherwise compose the calls ConfigChanged makes: ApplyClusterChanges, "
               "StatusResource.Update / DeleteShardMetadata / UpdateShardMetadata on the real resource, computeNewAssignments on a bare "
               "coordinator. The dispatcher model's atomic actions are the critical sections of the dispatcher mutex and the "
               "completions of a client stream's Send; the harness owns the fake client streams' Send as a gate and the coordinator "
@@ -59,7 +66,9 @@ RULE = ("gen: shard counts from {0..300, 2^k, 2^k±1, 65535..65537, random}; non
         "set incl. 0) with scripted supplier (fail / round-robin / explicit), deletion completions, metadata writes; "
         "non-trivial = more than one step, distinct by content; coord: histories of config changes, deletion completions and "
         "restarts of the real coordinator (incl. restarts with every namespace removed and fully deleted), generated op by "
-        "op against the running implementation, distinct by content; disp: schedules of the assignment dispatcher "
+        "op against the running implementation, distinct by content; cas (emitted as coord cases): a namespace of 1..3 "
+        "shards being deleted, 0..n-1 deletions before and 1..3 inside the compare-and-set window of a ConfigChanged of the "
+        "live coordinator (incl. the last one, which drops the namespace), re-add of the namespace, restart; disp: schedules of the assignment dispatcher "
         "(registrations of up to 6 clients of 2 namespaces incl. before the first push and for unknown namespaces, pushes that "
         "remove / re-create namespaces with 1..4 shards and fresh ids while first and later Sends are parked, Send completions "
         "and failures, disconnects), distinct by content")
